@@ -73,9 +73,9 @@ def handle (op : String) (j : Json) : Option (R Json) :=
       let drop ← getArr j "drop"
       let drop ← drop.mapM (·.getNat?)
       let cells := segCells k
-      let kept := keptSegments k drop.toList
-      pure (okJ [("total", intJ cells.length), ("kept", ints (kept.map Int.ofNat).toArray),
-                 ("cells", Json.arr (kept.map fun s => cellJ (cells.getD s (0, 0, 0))).toArray)])
+      let kept := keptCells k drop.toList            -- the translated numbering loop: (segment number, cell) pairs
+      pure (okJ [("total", intJ cells.length), ("kept", ints (kept.map fun p => Int.ofNat p.1).toArray),
+                 ("cells", Json.arr (kept.map fun p => cellJ p.2).toArray)])
   | "mesh" => some do
       -- integer mesh coordinates (integer shifts): exact
       let sh ← getInts j "shape"; let s ← getInts j "shift"
@@ -118,9 +118,8 @@ def handle (op : String) (j : Json) : Option (R Json) :=
       -- inner radius, array size, grid pitch and cell centres: the REGENERATED expressions of hex_segments / hex_to_rc
       let inner := Gen.hexInner sqrtN radius
       let size : Int := hexSegmentsSize (fun x => Int.ofNat (Float.ceil x).toUInt64.toNat) sqrtN rings pad radius gap
-      let cells := segCells rings
-      let kept := keptSegments rings drop.toList
-      let shifts := kept.map fun s => if s = 0 then ((0 : Float), (0 : Float)) else Gen.hexToRC sqrtN (cells.getD s (0, 0, 0)) (Gen.hexPitch radius gap) rot
+      let kept := keptCells rings drop.toList         -- the translated numbering loop: (segment number, cell) pairs
+      let shifts := kept.map fun p => if p.1 = 0 then ((0 : Float), (0 : Float)) else Gen.hexToRC sqrtN p.2 (Gen.hexPitch radius gap) rot
       let px := (idxList size size).map fun (i, jj) =>
         (shifts.filter fun sh => hexagonAt half inner (fun n => Float.sin th[n]!) (fun n => Float.cos th[n]!) size size sh.1 sh.2 false i jj == 1).length
       -- antialiased drawing (library default): the flattened sum of the segment masks
